@@ -46,6 +46,7 @@ Record sq := {
   holder : option nat;     (* who holds the submission lock *)
   threads : list thread;
   blocked : list N;        (* payloads whose future is parked on the blocked list *)
+  panicked : list N;       (* payloads whose fill closure panicked (nothing may be published for them) *)
   consumed : list slot;    (* what the kernel read, in order *)
   (* ghost *)
   g_h : N; g_t : N;        (* entries consumed / published so far *)
@@ -56,12 +57,12 @@ Definition init (n h0 : N) (progs : list (list N)) : sq :=
   {| len := n; khead := h0; ktail := h0; slots := fun _ => Torn; holder := None;
      threads := map (fun p => {| pcv := match p with [] => PDone | _ => POpLock end;
                                  todo := p; lh := 0; lt := 0 |}) progs;
-     blocked := []; consumed := []; g_h := 0; g_t := 0; g_accepted := [] |}.
+     blocked := []; panicked := []; consumed := []; g_h := 0; g_t := 0; g_accepted := [] |}.
 
 Definition set_thread (s : sq) (i : nat) (t : thread) : sq :=
   {| len := len s; khead := khead s; ktail := ktail s; slots := slots s; holder := holder s;
      threads := firstn i (threads s) ++ t :: skipn (S i) (threads s);
-     blocked := blocked s; consumed := consumed s;
+     blocked := blocked s; panicked := panicked s; consumed := consumed s;
      g_h := g_h s; g_t := g_t s; g_accepted := g_accepted s |}.
 
 Definition with_pc (t : thread) (p : pc) : thread :=
@@ -73,10 +74,15 @@ Definition next_add (t : thread) : thread :=
 
 Definition set_holder (s : sq) (h : option nat) : sq :=
   {| len := len s; khead := khead s; ktail := ktail s; slots := slots s; holder := h;
-     threads := threads s; blocked := blocked s; consumed := consumed s;
+     threads := threads s; blocked := blocked s; panicked := panicked s; consumed := consumed s;
      g_h := g_h s; g_t := g_t s; g_accepted := g_accepted s |}.
 
 Definition is_full (h t n : N) : bool := n <=? wsub32 t h.
+
+(** Payloads from 1000 on stand for submissions whose fill closure panics (a buffer whose
+    [parts] panics): the slot has been reset, nothing may be published, the lock is released by
+    unwinding. *)
+Definition is_faulty (p : N) : bool := 1000 <=? p.
 
 (** One step of thread [i]: from the scheduling point it is stopped at to the next one.
     [full] is the fullness test used under the lock (parameter only so that the pre-repair
@@ -109,9 +115,20 @@ Definition tstep_with (full : N -> N -> N -> bool) (s : sq) (i : nat) : sq :=
     | PFill =>
         (* reset + fill: until the tail store the slot is not a complete entry *)
         let idx := N.land (lt t) (len s - 1) in
+        if is_faulty (hd 0 (todo t)) then
+          (* the fill closure panics: the guard is dropped by unwinding, the tail is untouched *)
+          let s' := {| len := len s; khead := khead s; ktail := ktail s;
+                       slots := fun j => if j =? idx then Torn else slots s j;
+                       holder := None; threads := threads s; blocked := blocked s;
+                       panicked := panicked s ++ [hd 0 (todo t)];
+                       consumed := consumed s;
+                       g_h := g_h s; g_t := g_t s; g_accepted := g_accepted s |} in
+          set_thread s' i (next_add t)
+        else
         let s' := {| len := len s; khead := khead s; ktail := ktail s;
                      slots := fun j => if j =? idx then Torn else slots s j;
                      holder := holder s; threads := threads s; blocked := blocked s;
+                     panicked := panicked s;
                      consumed := consumed s;
                      g_h := g_h s; g_t := g_t s; g_accepted := g_accepted s |} in
         set_thread s' i (with_pc t PStore)
@@ -122,14 +139,14 @@ Definition tstep_with (full : N -> N -> N -> bool) (s : sq) (i : nat) : sq :=
         let s' := {| len := len s; khead := khead s; ktail := wadd32 (lt t) 1;
                      slots := fun j => if j =? idx then Entry p else slots s j;
                      holder := None; threads := threads s;
-                     blocked := blocked s; consumed := consumed s;
+                     blocked := blocked s; panicked := panicked s; consumed := consumed s;
                      g_h := g_h s; g_t := g_t s + 1;
                      g_accepted := g_accepted s ++ [p] |} in
         set_thread s' i (next_add t)
     | PLockBlocked =>
         let s' := {| len := len s; khead := khead s; ktail := ktail s; slots := slots s;
                      holder := holder s; threads := threads s;
-                     blocked := blocked s ++ [hd 0 (todo t)]; consumed := consumed s;
+                     blocked := blocked s ++ [hd 0 (todo t)]; panicked := panicked s; consumed := consumed s;
                      g_h := g_h s; g_t := g_t s; g_accepted := g_accepted s |} in
         set_thread s' i (next_add t)
     end
@@ -142,7 +159,7 @@ Definition kstep (s : sq) : sq :=
   if khead s =? ktail s then s
   else
     {| len := len s; khead := wadd32 (khead s) 1; ktail := ktail s; slots := slots s;
-       holder := holder s; threads := threads s; blocked := blocked s;
+       holder := holder s; threads := threads s; blocked := blocked s; panicked := panicked s;
        consumed := consumed s ++ [slots s (N.land (khead s) (len s - 1))];
        g_h := g_h s + 1; g_t := g_t s; g_accepted := g_accepted s |}.
 
@@ -200,5 +217,6 @@ Definition run_sqcase (c : sqcase) : list Z :=
   o ++ [(-1)%Z] ++ map slot_z (consumed s)
     ++ [(-2)%Z] ++ pending_from (N.to_nat (len s) + 1) s (khead s)
     ++ [(-3)%Z] ++ map nz (sort_n (blocked s))
+    ++ [(-5)%Z] ++ map nz (sort_n (panicked s))
     (* what [enter] passes as to_submit afterwards: [unsubmitted_submissions] *)
     ++ [(-4)%Z; nz (wsub32 (ktail s) (khead s))].
